@@ -177,7 +177,7 @@ theorem merge_end_to_end_whole_document (cx : Ctx) (hwf : wfCheck3 cx.blocks = t
     ((mergeDoc cx r c).doc c.doc).vals = (appliedBlocks cx r c).foldl applyDelta (r.doc c.doc).vals ∧
     KInv cx.blocks ((mergeDoc cx r c).doc c.doc) := by
   have swf := wfCheck3_sound cx.blocks hwf
-  obtain ⟨_, h3, h4, h5⟩ := mergeDoc_full cx swf hknown r c hc hck
+  obtain ⟨_, _, h3, h4, h5⟩ := mergeDoc_full cx swf hknown r c hc hck
     (kinvCheck_sound _ _ hk) (linkInvCheck_sound _ swf.base2.base.wf _ hli)
   exact ⟨h4, h5, h3⟩
 
